@@ -151,12 +151,13 @@ structure StyleOpts where
   only : List Style := []
   deriving Repr
 
-/-- `build_styles_list` -/
+/-- `build_styles_list` together with what its two call sites do with `None` (`Gen.excludeAllYieldsEmpty`): the value
+    that reaches `PlanOptions.styles` -/
 def buildStylesList (o : StyleOpts) : Option (List Style) :=
   if o.only.isEmpty then
     let active := Gen.defaultStyles.filter (fun s => !o.excl.contains s)
     let active := o.incl.foldl (fun acc s => if acc.contains s then acc else acc ++ [s]) active
-    if active.isEmpty then none else some active
+    if active.isEmpty then (if Gen.excludeAllYieldsEmpty then some [] else none) else some active
   else some o.only
 
 /-- the styles the exact pass really matches: the variant map is built from `styles`, or from the scanner's own 7-style
@@ -355,9 +356,11 @@ def hunkReplacement (A : Acr) (env : Env) (vm : SMap) (line variant origRepl : B
       | none => r0
     some (fixFirst variant r1)
 
-/-- `is_single_word_search && is_single_style_search` of `find_enhanced_matches` -/
-def skipExact (search : Bytes) (slice : List Style) : Bool :=
+/-- `is_single_word_search && is_single_style_search` of `find_enhanced_matches` (`Gen.skipExactUsesTokens`: whether the
+    source also asks the typed term to tokenize to a single word) -/
+def skipExact (A : Acr) (search : Bytes) (slice : List Style) : Bool :=
   !contains search 95 && !contains search 45 && !contains search 46 && !contains search 32 &&
+    (!Gen.skipExactUsesTokens || decide ((parse A search).length < 2)) &&
     decide (slice.length = 1)
 
 structure Cfg where
@@ -384,7 +387,7 @@ def exactHunks (cfg : Cfg) (vm : SMap) (line : Bytes) : List (Nat × Bytes) → 
 /-- the hunks of the line: exact pass (unless skipped) plus whatever the compound pass contributes, by start -/
 def lineHunks (cfg : Cfg) (line : Bytes) : Option (List Edits.Edit) :=
   let vm := cfg.vmap
-  let exact := if skipExact cfg.search (stylesSlice cfg.opts) then [] else exactMatches line vm.keys
+  let exact := if skipExact cfg.A cfg.search (stylesSlice cfg.opts) then [] else exactMatches line vm.keys
   match exactHunks cfg vm line exact with
   | none => none
   | some hs =>
